@@ -261,7 +261,8 @@ def install(it, osm, modules=("input", "termhelpers", "window")):
     main, other = Record(name="MainThread"), Record(name="Thread-1")
     threading = Record(current_thread=N(lambda a, k: main if osm.main_thread else other), main_thread=N(lambda a, k: main))
     select = Record(select=N(osm.select, "select.select"))
-    time = Record(time=N(osm.time, "time.time"), monotonic=N(osm.time, "time.monotonic"))
+    # time.monotonic() has its own epoch: mixing it with time.time() in one subtraction shows as a wildly wrong interval
+    time = Record(time=N(osm.time, "time.time"), monotonic=N(lambda a, k: osm.time(a, k) - 987654.0, "time.monotonic"))
     for m in modules:
         ov = it.folder.overrides.setdefault(m, {})
         ov.update({"termios": termios, "tty": tty, "fcntl": fcntl, "os": os_, "signal": sig, "threading": threading,
